@@ -55,7 +55,7 @@ def classify(a, v, info):
         if n.split('(')[0].endswith('::ne'):
             return ('is_default', not v)
         return ('is_default', bool(v))
-    if re.match(r'^variant\([\w:]*LogWriter::write#\d+\(', n):
+    if re.match(r'^variant\([\w:]*LogWriter::write#\d+\)$', n):
         return ('wres', v)
     if re.match(r'^variant\(std::collections::HashMap::<[^()]*>::get\(', n):
         return ('lookup', v)
@@ -69,7 +69,7 @@ def classify(a, v, info):
         return ('match', v)
     if re.match(r'variant\(self\.filter\)$', n):
         return ('linefilter', v)
-    if re.match(r'^variant\([\w:]*(LogLineFilter::write|PrimaryWriter::write)#\d+\(', n):
+    if re.match(r'^variant\([\w:]*(LogLineFilter::write|PrimaryWriter::write)#\d+\)$', n):
         return ('pres', v)
     if re.match(r'^variant\((std::result::Result::<T, E>::as_ref\()?&?std::sync::RwLock::<T>::read\(&self\.log_specification\)\)?\)$', n):
         return ('poison', v)
